@@ -172,6 +172,11 @@ def runner(rep, tier, seed, replay):
         for n in ("n1", "a.b", "7z"):
             hists.append([{"op": "define", "n": n, "v": v}, {"op": "show", "n": n, "v": v}, {"op": "list", "table": {n: v}},
                           {"op": "use", "n": n, "v": v, "pos": "head"}])
+    # the words an alias value brings in are not alias-replaced again: a pipeline value whose stages name helpers that are aliases
+    # themselves at that moment (vmk -> 'vpa -x', vpa -> 'vmk 5 0')
+    hists.append([{"op": "define", "n": "vmk", "v": "v1"}, {"op": "define", "n": "n1", "v": "v9"}, {"op": "use", "n": "n1", "v": "v9", "pos": "head"},
+                  {"op": "use", "n": "n1", "v": "v9", "pos": "aftersemi"}, {"op": "define", "n": "vpa", "v": "v5"}, {"op": "use", "n": "n1", "v": "v9", "pos": "head"},
+                  {"op": "use", "n": "n1", "v": "v9", "pos": "afterpipe"}])
     log("[C17] %d histories" % len(hists))
     jobs = [{"entry": "script", "text": render(h), "timeout": 20} for h in hists]
     results = run_cases(jobs)
